@@ -653,8 +653,8 @@ def run(tier, seed, only=None):
                 break
             if tier == "thorough" and d == depth - 1 and "C16_DEPTH" not in os.environ:
                 # last level of the thorough tier: only for the basic set-ups (the additional ones stop one level earlier)
-                frontier = [it for it in frontier if it["setup"] in SETUPS_QUICK]
-                rep.extra["depth_note"] = "basic set-ups explored to depth %d, additional thorough set-ups to depth %d" % (depth, depth - 1)
+                frontier = [it for it in frontier if it["setup"] in SETUPS_QUICK[:4]]
+                rep.extra["depth_note"] = "set-ups %r explored to depth %d, the other set-ups to depth %d" % (SETUPS_QUICK[:4], depth, depth - 1)
             for j, it in enumerate(frontier):
                 it["dup_check"] = (j % 50 == 0)
             results = pool.run_items("mc.props.C16", "expand", frontier, chunksize=4)
